@@ -62,6 +62,8 @@ extern "C" {
 #define CO_LSS_REM_REVISION_MAX  13
 #define CO_LSS_REM_SERIAL_MIN    14
 #define CO_LSS_REM_SERIAL_MAX    15
+#define CO_LSS_ACT_DELAY_1       20
+#define CO_LSS_ACT_DELAY_2       21
 
 /******************************************************************************
 * PUBLIC TYPES
